@@ -151,7 +151,7 @@ def run(ctx):
                     eq = sel["binds"]["where_eq"]
                     if eq is None or set(eq) != {"nameplates_id"}:
                         continue
-                    found, ok, text = guards.guard_verdict(e["pc"], rows, "claimed")
+                    found, ok, text = guards.guard_verdict(e["pc"][len(sel["pc"]):], rows, "claimed")
                     if found:
                         verdict = (ok, text)
                 if verdict is None:
